@@ -138,9 +138,14 @@ def obligations(enc, spec, order, sst, tag, skip):
         out = V.out["out"]
         return {k[:-6]: (cells(a)[0] if np.shape(a) == () else a) for k, a in out.items() if k.endswith("_value")}
 
+    def skipped(var):
+        """a variable is skipped if its name, the name of its distribution node or of the node the distribution is evaluated at
+        (the variable's value proxy `<name>_var_value`) is listed; the plain value node's name is not a documented way to skip"""
+        return var in skip or f"{var}_log_prob" in skip or f"{var}_var_value" in skip
+
     for var in order:
         shape, loc, scale = spec[var]
-        if var in skip:
+        if skipped(var):
             def g_skip(V, var=var):
                 return [], all_eq(V.out["out"][f"{var}_value"], sst[f"{var}_value"])
             obs.append(Obligation(f"simulate[{tag}]: skipped variable {var} keeps its value", [enc], g_skip, signature=f"{tag}:skip:{var}"))
@@ -177,7 +182,7 @@ def structural(chk, enc, spec, sst, tag, skip):
     keys = [repr(k) for d in enc.I.draws for k in d["keys"]]
     if len(set(keys)) != len(keys):
         chk.violation(f"{tag}:keys", f"simulate[{tag}]: two variables are drawn with the same PRNG key", dict(reproduced=True, note=str(keys)))
-    n_expected = sum(1 for v in spec if v not in skip)
+    n_expected = sum(1 for v in spec if not (v in skip or f"{v}_log_prob" in skip or f"{v}_var_value" in skip))
     if len(keys) != n_expected:
         chk.harness_error(f"{tag}:draw-count", f"expected {n_expected} sampler calls, trace has {len(keys)}")
     for k in keys:
@@ -189,12 +194,12 @@ def main():
     chk = Check("C17")
     if chk.tier == "quick":
         plan = [("direct", True, ()), ("via-calc", False, ()), ("via-calc", True, ()), ("diamond", False, ()), ("diamond", True, ("m",)),
-                ("per_obs=False", False, ()), ("two-level+matrix", False, ("a",))]
+                ("per_obs=False", False, ()), ("two-level+matrix", False, ("a",)), ("direct", False, ("mu_log_prob",)), ("via-calc", False, ("y_var_value",))]
     else:
         plan = []
         for h in FAMILY:
             vars_ = FAMILY[h]()[2]
-            skips = [()] + [(v,) for v in vars_[:-1]] + [(vars_[-1],)]
+            skips = [()] + [(v,) for v in vars_[:-1]] + [(vars_[-1],)] + [(f"{vars_[0]}_log_prob",), (f"{vars_[-1]}_var_value",)]
             for auto in (True, False):
                 for sk in skips:
                     plan.append((h, auto, sk))
